@@ -118,6 +118,9 @@ type Reg struct {
 	// this is only used where nothing is constructed (Build must fail).
 	HasCtorOf bool
 	CtorOf    int
+	// Variadic: the constructor is variadic; its last dependency (a service of
+	// the slice type []I0) is declared as "...I0".
+	Variadic bool
 	// IsTwin: the function value has exactly the signature of registration TwinOf's
 	// (another function value, another lifetime, another group or name).
 	IsTwin bool
@@ -204,6 +207,9 @@ func (r Reg) String() string {
 	}
 	if r.IsTwin {
 		fmt.Fprintf(&sb, " (same signature as r%d)", r.TwinOf)
+	}
+	if r.Variadic {
+		sb.WriteString(" (variadic: last parameter ...I0)")
 	}
 	if len(r.After) > 0 {
 		fmt.Fprintf(&sb, " (registered after r%d removed it)", r.After[0])
